@@ -138,9 +138,10 @@ func RuleTransport(r *Report, p *Program, rules aspectSet) {
 		"T9":  "a connection never escapes the call that opened it (not stored, sent or returned)",
 		"T10": "slices returned to the caller are views of buffers allocated inside that call",
 		"A2d": "each driver send method writes the request exactly once per call",
+		"T12": "a socket bound to an ephemeral port (bind port 0) is opened without an address-reuse option hook: with SO_REUSEADDR/SO_REUSEPORT the kernel may give two concurrently open sockets the same local port, and connected to the same controller they share a 4-tuple, so one call receives the other's reply",
 		"T11": "the reply a driver method returns is exactly the bytes of its last read: buffer[0:n] with n the count that read returned, from a buffer large enough to expose over-long datagrams",
 	}
-	mins := map[string]int{"T1": 5, "T2": 3, "T3": 4, "T4": 4, "T5": 4, "T6": 4, "T9": 5, "T10": 3, "A2d": 4, "T11": 3}
+	mins := map[string]int{"T1": 5, "T2": 3, "T3": 4, "T4": 4, "T5": 4, "T6": 4, "T9": 5, "T10": 3, "A2d": 4, "T11": 3, "T12": 2}
 	for id := range rules {
 		if d, ok := doc[id]; ok {
 			r.Rule(id, d, mins[id])
@@ -150,6 +151,7 @@ func RuleTransport(r *Report, p *Program, rules aspectSet) {
 		pos := p.Pos(sf.Fn.Pos())
 		t1, t2, t3, t4, t5, t6, t9, t10, a2 := "", "", "", "", "", "", "", "", ""
 		t11 := ""
+		t12 := ""
 		lockedPaths, unlockedPaths := 0, 0
 		for _, pa := range sf.Paths {
 			if pa.Outcome != "return" && pa.Outcome != "truncated" {
@@ -236,6 +238,15 @@ func RuleTransport(r *Report, p *Program, rules aspectSet) {
 			if !closed {
 				t1 = "socket opened at " + p.Pos(pa.Events[openIdx].Pos) + " is not closed on the path [" + cut(pa.State.Describe(), 200) + "]"
 			}
+			// ---- T12 no address reuse on ephemeral ports
+			if !sf.Listen && sf.IsDial && len(locks) == 0 {
+				ctl := deepField(pa.Events[openIdx].Deep[0], "Control")
+				if ctl != "nil" && ctl != "zero" && ctl != "" {
+					if clos := controlClosure(pa.Events[openIdx].Snap[0]); clos != nil && reachesReuseOption(clos, 0, map[*ssa.Function]bool{}) {
+						t12 = "the dialer installs a socket-option hook that enables address reuse although the bind port is 0 (" + ctl + ")"
+					}
+				}
+			}
 			// ---- T6 bind address
 			if !sf.Listen {
 				oe := pa.Events[openIdx]
@@ -277,6 +288,15 @@ func RuleTransport(r *Report, p *Program, rules aspectSet) {
 				}
 				if !ok && t2 == "" {
 					t2 = "blocking read at " + p.Pos(pa.Events[ri].Pos) + " has no read deadline of now+timeout set before it"
+				}
+			}
+			// an absolute deadline: nothing re-arms it once the request is on the wire
+			if len(writes) > 0 {
+				for i := writes[0] + 1; i < len(pa.Events); i++ {
+					e := pa.Events[i]
+					if e.Kind == "call" && !e.Deferred && strings.Contains(e.Name, "Deadline") && mentions(e, conn) {
+						t2 = "the deadline is set again at " + p.Pos(e.Pos) + " after the request was written: stray datagrams can extend the call beyond its timeout"
+					}
 				}
 			}
 			// no-reply
@@ -356,11 +376,7 @@ func RuleTransport(r *Report, p *Program, rules aspectSet) {
 					case res.Op == "slice" && res.Args[0].Op == "sref" && !res.Args[0].Cell.Sym:
 					case res.Op == "ptr" && res.Cell != nil && !res.Cell.Sym:
 					default:
-						// Broadcast returns the captured slice variable: accept a local cell load
-						if !strings.Contains(res.String(), "request") {
-							break
-						}
-						t10 = "returned slice is not a buffer allocated in the call: " + cut(res.String(), 80)
+						t10 = "the returned slice is not (a view of) a buffer allocated inside this call: " + cut(res.String(), 100)
 					}
 					if strings.HasPrefix(res.String(), "request") {
 						t10 = "the request buffer is returned to the caller"
@@ -413,10 +429,65 @@ func RuleTransport(r *Report, p *Program, rules aspectSet) {
 		emit("T10", t10)
 		emit("A2d", a2)
 		emit("T11", t11)
+		if sf.IsDial {
+			emit("T12", t12)
+		}
 	}
 }
 
 func (s IntervalSet) Equal(o IntervalSet) bool { return s.String() == o.String() }
+
+// controlClosure: the function stored in the Control field of a dialer value.
+func controlClosure(d *Term) *ssa.Function {
+	v := d
+	if d.Op == "ptr" && d.Cell != nil && !d.Cell.Sym {
+		v = d.Cell.Val
+		for _, s := range d.Path {
+			v = project(v, s)
+		}
+	}
+	c := project(v, "Control")
+	if c != nil && c.Op == "closure" {
+		return c.Fn
+	}
+	return nil
+}
+
+// reachesReuseOption: the function (transitively, in-module) calls syscall.SetsockoptInt with SO_REUSEADDR or SO_REUSEPORT.
+func reachesReuseOption(fn *ssa.Function, depth int, seen map[*ssa.Function]bool) bool {
+	if fn == nil || seen[fn] || depth > 4 || fn.Blocks == nil {
+		return false
+	}
+	seen[fn] = true
+	for _, b := range fn.Blocks {
+		for _, in := range b.Instrs {
+			if mc, ok := in.(*ssa.MakeClosure); ok {
+				if reachesReuseOption(mc.Fn.(*ssa.Function), depth+1, seen) {
+					return true
+				}
+			}
+			c, ok := in.(ssa.CallInstruction)
+			if !ok {
+				continue
+			}
+			f := c.Common().StaticCallee()
+			if f == nil {
+				continue
+			}
+			if calleeName(f) == "syscall.SetsockoptInt" && len(c.Common().Args) >= 3 {
+				if k, ok := constInt(c.Common().Args[2]); ok && (k == 2 || k == 15) { // SO_REUSEADDR, SO_REUSEPORT (linux)
+					return true
+				}
+			}
+			if f.Pkg != nil && strings.HasPrefix(f.Pkg.Pkg.Path(), modPath) {
+				if reachesReuseOption(f, depth+1, seen) {
+					return true
+				}
+			}
+		}
+	}
+	return false
+}
 
 func portRegion(pa Path) string {
 	for k, v := range pa.State.Ints {
@@ -941,4 +1012,104 @@ func rw(w bool) string {
 		return "write"
 	}
 	return "read"
+}
+
+// RB: every buffer handed to a socket read can hold more than one protocol message, so an over-long
+// datagram is seen as over-long instead of being truncated to a well-formed length.
+func RuleReadBuffers(r *Report, p *Program) {
+	r.Rule("RB", "every receive buffer handed to a socket read is larger than the 64-byte message, so over-long datagrams stay recognisable", 5)
+	for _, fn := range p.AllFuncs {
+		pk := fnPkg(fn)
+		if pk != p.SSAPkg("uhppote") {
+			continue
+		}
+		for _, b := range fn.Blocks {
+			for _, in := range b.Instrs {
+				c, ok := in.(ssa.CallInstruction)
+				if !ok {
+					continue
+				}
+				cc := c.Common()
+				name := ""
+				if f := cc.StaticCallee(); f != nil {
+					name = calleeName(f)
+				} else if cc.IsInvoke() {
+					name = "invoke:" + cc.Method.Name()
+				}
+				isRead := strings.HasSuffix(name, ").ReadFromUDP") || strings.HasSuffix(name, ").Read") || name == "invoke:Read" || strings.HasSuffix(name, ").ReadFrom") || name == "io.ReadFull" || name == "io.ReadAtLeast"
+				if !isRead {
+					continue
+				}
+				var buf ssa.Value
+				for _, a := range cc.Args {
+					if _, ok := a.Type().Underlying().(*types.Slice); ok {
+						buf = a
+					}
+				}
+				if buf == nil {
+					continue
+				}
+				n, known := sliceLenOf(buf)
+				key := calleeName(fn) + ":" + name
+				switch {
+				case !known:
+					r.Bad("RB", key, p.Pos(in.Pos()), "the size of the receive buffer cannot be determined")
+				default:
+					r.Check(n > 64, "RB", key, p.Pos(in.Pos()), fmt.Sprintf("%d-byte buffer", n),
+						fmt.Sprintf("the receive buffer is only %d bytes: a datagram longer than 64 bytes is silently truncated to a well-formed length and accepted", n))
+				}
+			}
+		}
+	}
+}
+
+func sliceLenOf(v ssa.Value) (int64, bool) {
+	if n, ok := makeSliceLen(v); ok {
+		return n, true
+	}
+	v = resolveLocal(v)
+	switch x := v.(type) {
+	case *ssa.Slice:
+		// buf[:k] of a known buffer
+		if hi, ok := constInt(x.High); ok && x.High != nil {
+			lo, _ := constIntOrNil(x.Low)
+			return hi - lo, true
+		}
+		return sliceLenOf(x.X)
+	case *ssa.FreeVar:
+		fn := x.Parent()
+		idx := -1
+		for i, fv := range fn.FreeVars {
+			if fv == x {
+				idx = i
+			}
+		}
+		if par := fn.Parent(); par != nil {
+			for _, b := range par.Blocks {
+				for _, in := range b.Instrs {
+					if mc, ok := in.(*ssa.MakeClosure); ok && mc.Fn == fn {
+						return sliceLenOf(mc.Bindings[idx])
+					}
+				}
+			}
+		}
+	case *ssa.UnOp:
+		if al, ok := x.X.(*ssa.Alloc); ok {
+			for _, ref := range *al.Referrers() {
+				if st, ok := ref.(*ssa.Store); ok && st.Addr == al {
+					return sliceLenOf(st.Val)
+				}
+			}
+		}
+		if fv, ok := x.X.(*ssa.FreeVar); ok {
+			return sliceLenOf(fv)
+		}
+	case *ssa.Alloc:
+		for _, ref := range *x.Referrers() {
+			if st, ok := ref.(*ssa.Store); ok && st.Addr == x {
+				return sliceLenOf(st.Val)
+			}
+		}
+	}
+	return 0, false
 }
